@@ -90,6 +90,18 @@ def run_format_tie(ctx, tied, budget):
         sc = copy.deepcopy(sc0)
         sc.sid = f"{sc0.sid}~{fmt}"
         sc.mixin_override = (f[0], f[1])
+        if sc.dialect is None and k % 2 == 1:
+            # give every second scenario a caller dialect (the user-dialect x built-in-dialect merge is what is tied here);
+            # every class gets its own Config (ADD_DIALECT_SUPPORT) with the options it effectively had
+            eff = {c.name: (c.by_alias, c.omit_none) for c in sc.classes}
+            for c in sc.classes:
+                c.by_alias_own, on = eff[c.name]
+                c.own_config = True
+                c.extra.pop("omit_none", None)
+                if on is not None:
+                    c.extra["omit_none"] = str(on)
+            sc.dialect = ctx.rng.choice([True, False, "unset"])
+            sc.dialect_omit = ctx.rng.choice([None, True, False])
         src = L.scenario_src(sc)
         try:
             mod = L.load_module(src, f"fmttie{fmt}{k}")
